@@ -149,9 +149,24 @@ func runShard(p *Prop, tier string, seed int64, shard, shards int, dir string, w
 
 // runSingle re-executes one case alone in a fresh worker and returns its violations.
 func runSingle(p *Prop, tier string, seed int64, idx int, dir string, limit time.Duration) (viol []Violation, died bool, hung bool, note string) {
+	return runCases(p, tier, seed, idx, 0, 0, dir, limit)
+}
+
+// runPrefix re-executes, in one fresh worker, the cases shard, shard+shards, ... up to idx: the history the
+// observing worker had when it saw a violation at idx (for violations that depend on state kept in the process).
+func runPrefix(p *Prop, tier string, seed int64, idx, shard, shards int, dir string, limit time.Duration) (viol []Violation, died bool, hung bool, note string) {
+	return runCases(p, tier, seed, idx, shard, shards, dir, limit)
+}
+
+func runCases(p *Prop, tier string, seed int64, idx, shard, shards int, dir string, limit time.Duration) (viol []Violation, died bool, hung bool, note string) {
 	base := filepath.Join(dir, fmt.Sprintf("single-%d", idx))
 	os.Remove(base + ".json")
 	args := []string{"worker", "-prop", p.ID, "-tier", tier, "-seed", fmt.Sprint(seed), "-only", fmt.Sprint(idx), "-out", base}
+	if shards > 0 {
+		base = filepath.Join(dir, fmt.Sprintf("prefix-%d", idx))
+		os.Remove(base + ".json")
+		args = []string{"worker", "-prop", p.ID, "-tier", tier, "-seed", fmt.Sprint(seed), "-shard", fmt.Sprint(shard), "-shards", fmt.Sprint(shards), "-upto", fmt.Sprint(idx), "-out", base}
+	}
 	cmd := exec.Command(workerBinary(p), args...)
 	var stderr bytes.Buffer
 	cmd.Stderr = &stderr
@@ -422,8 +437,28 @@ func checkMain(propID, tier string) int {
 			case len(rv) > 0:
 				confirmed = rv[0]
 			default:
-				inconclusive = append(inconclusive, fmt.Sprintf("violation of kind %s at case %d did not reproduce in a fresh worker", v.Kind, v.Idx))
-				continue
+				// not alone: does it depend on what the observing worker had executed before (state kept in
+				// package-level variables, pools, caches)? Re-run that worker's cases up to this one in a fresh process.
+				var pv []Violation
+				for try := 0; try < 2 && len(pv) == 0; try++ {
+					pv, _, _, _ = runPrefix(p, tier, seed, v.Idx, v.Idx%shards, shards, dir, wallLimit)
+				}
+				var hit *Violation
+				for i := range pv {
+					if pv[i].Idx == v.Idx || (hit == nil && pv[i].Kind == v.Kind) {
+						hit = &pv[i]
+					}
+				}
+				if hit == nil {
+					inconclusive = append(inconclusive, fmt.Sprintf("violation of kind %s at case %d did not reproduce in a fresh worker, neither alone nor after the same earlier cases", v.Kind, v.Idx))
+					continue
+				}
+				confirmed = *hit
+				confirmed.HistShard, confirmed.HistShards = v.Idx%shards, shards
+				if confirmed.Detail == nil {
+					confirmed.Detail = D{}
+				}
+				confirmed.Detail["depends_on_process_history"] = fmt.Sprintf("case %d alone in a fresh process behaves correctly; the violation reproduces when one process executes the cases %d, %d, ... up to %d first (state surviving in the engine between executions)", v.Idx, v.Idx%shards, v.Idx%shards+shards, confirmed.Idx)
 			}
 		}
 		nviol++
@@ -539,7 +574,15 @@ func replayMain(path string) int {
 		tries = 20
 	}
 	for i := 0; i < tries; i++ {
-		rv, died, hung, note := runSingle(p, v.Tier, v.Seed, v.Idx, dir, 150*time.Second)
+		var rv []Violation
+		var died, hung bool
+		var note string
+		if v.HistShards > 0 {
+			fmt.Printf("(replaying the cases %d, %d, ... up to %d in one process)\n", v.HistShard, v.HistShard+v.HistShards, v.Idx)
+			rv, died, hung, note = runPrefix(p, v.Tier, v.Seed, v.Idx, v.HistShard, v.HistShards, dir, 30*time.Minute)
+		} else {
+			rv, died, hung, note = runSingle(p, v.Tier, v.Seed, v.Idx, dir, 150*time.Second)
+		}
 		if died || hung {
 			fmt.Printf("VIOLATION property=%s replay=%s\n  reproduced: died=%v hung=%v %s\n", v.Property, path, died, hung, note)
 			return 1
